@@ -22,14 +22,17 @@ class _DispatcherMiddleware:
                 if scope["path"].startswith(path):
                     scope["path"] = scope["path"][len(path) :] or "/"
                     return await app(scope, receive, send)
+            # A WebSocket request is refused with the HTTP response
+            # extension, http.response.* messages are invalid for it
+            prefix = "websocket.http" if scope["type"] == "websocket" else "http"
             await send(
                 {
-                    "type": "http.response.start",
+                    "type": f"{prefix}.response.start",
                     "status": 404,
                     "headers": [(b"content-length", b"0")],
                 }
             )
-            await send({"type": "http.response.body"})
+            await send({"type": f"{prefix}.response.body"})
 
     async def _handle_lifespan(self, scope: Scope, receive: Callable, send: Callable) -> None:
         pass
